@@ -1,0 +1,63 @@
+//go:build verif
+
+// Contracts for package threshold, read by /verif's govc (comment-only; no declarations).
+
+package threshold
+
+// ---- object invariants -------------------------------------------------------------------------------------
+
+//@ type Scheme
+//@   invariant [logger] this.Logger != nil
+//@
+//@ monitor (*Scheme).lock
+//@   guards syncsInProgress, rbcInProgress, messageClassifiers, dkgRunning
+//@   invariant [sync-handlers]  forall k string :: k in this.syncsInProgress ==> this.syncsInProgress[k] != nil
+//@   invariant [rbc-handlers]   forall k string :: k in this.rbcInProgress ==> this.rbcInProgress[k] != nil
+//@   invariant [classifiers]    forall k string :: k in this.messageClassifiers ==> this.messageClassifiers[k] != nil
+
+// ---- wire encoding of acknowledgements (C13) ----------------------------------------------------------------
+
+//@ func newRBCEncoding
+//@   props C13
+//@   requires msgRound < 128
+//@   modifies nothing
+//@   ensures [shape]  len(result) == 3 + len(digest) && result[0] == msgRound && result[1] == byte(sender >> 8) && result[2] == byte(sender)
+//@   ensures [digest] forall i int :: 0 <= i && i < len(digest) ==> result[3+i] == digest[i]
+//@
+//@ func (rbcEncoding).Ack
+//@   props C13 C10
+//@   modifies nothing
+//@   ensures [ack]     len(r) >= 4 && r[0] < 128 ==> err == nil && msgRound == r[0] && sender == uint16(r[1])*256 + uint16(r[2])
+//@   ensures [digest]  len(r) >= 4 && r[0] < 128 ==> len(digest) == len(r)-3 && forall i int :: 0 <= i && i < len(digest) ==> digest[i] == r[3+i]
+//@   ensures [payload] len(r) > 0 && r[0] >= 128 ==> err == nil && len(digest) == 0
+//@   ensures [short]   len(r) == 0 || (r[0] < 128 && len(r) < 4) ==> err != nil
+//@
+//@ func (rbcEncoding).Payload
+//@   props C13 C10
+//@   requires len(r) >= 1
+//@   modifies nothing
+//@   ensures len(result) == len(r)-1 && forall i int :: 0 <= i && i < len(result) ==> result[i] == r[1+i]
+//@
+//@ lemma ackRoundTrip(d string, s uint16, rd uint8)
+//@   props C13
+//@   requires rd < 128 && len(d) > 0
+//@   let e = newRBCEncoding(d, s, rd)
+//@   let d2, s2, r2, err = rbcEncoding.Ack(e)
+//@   assert [noerr]  err == nil
+//@   assert [sender] s2 == s
+//@   assert [round]  r2 == rd
+//@   assert [digest] len(d2) == len(d) && forall i int :: 0 <= i && i < len(d) ==> d2[i] == d[i]
+
+// ---- dispatcher (C10) -----------------------------------------------------------------------------------------
+
+//@ func (*Scheme).HandleMessage
+//@   props C10
+//@   requires msg != nil
+//@
+//@ func (*Scheme).handleSync
+//@   props C10
+//@   requires msg != nil
+//@
+//@ func (*Scheme).handleMPC
+//@   props C10
+//@   requires msg != nil
